@@ -58,6 +58,10 @@ impl<R: Read + Seek> ReadBox<&mut R> for IlstBox {
             // Get box header.
             let header = BoxHeader::read(reader)?;
             let BoxHeader { name, size: s } = header;
+            // Break if size zero BoxHeader, which can result in dead-loop.
+            if s == 0 {
+                break;
+            }
             if s > size {
                 return Err(Error::InvalidData(
                     "ilst box contains a box with a larger size than it",
@@ -134,6 +138,10 @@ impl<R: Read + Seek> ReadBox<&mut R> for IlstItemBox {
             // Get box header.
             let header = BoxHeader::read(reader)?;
             let BoxHeader { name, size: s } = header;
+            // Break if size zero BoxHeader, which can result in dead-loop.
+            if s == 0 {
+                break;
+            }
             if s > size {
                 return Err(Error::InvalidData(
                     "ilst item box contains a box with a larger size than it",
